@@ -7,6 +7,7 @@ import (
 	"math"
 	"os"
 	"path/filepath"
+	"sort"
 	"sync"
 	"sync/atomic"
 	"time"
@@ -500,22 +501,15 @@ func (m *Manager) ReloadSSTables() error {
 	// Clear the list
 	m.sstables = m.sstables[:0]
 
-	// Find all SSTable files
-	entries, err := os.ReadDir(m.sstableDir)
+	// Find all SSTable files, oldest data first
+	files, err := m.listSSTableFiles()
 	if err != nil {
-		if os.IsNotExist(err) {
-			return nil // Directory doesn't exist yet
-		}
-		return fmt.Errorf("failed to read SSTable directory: %w", err)
+		return err
 	}
 
 	// Open all SSTable files
-	for _, entry := range entries {
-		if entry.IsDir() || filepath.Ext(entry.Name()) != ".sst" {
-			continue // Skip directories and non-SSTable files
-		}
-
-		path := filepath.Join(m.sstableDir, entry.Name())
+	for _, file := range files {
+		path := filepath.Join(m.sstableDir, file.name)
 		reader, err := sstable.OpenReader(path)
 		if err != nil {
 			return fmt.Errorf("failed to open SSTable %s: %w", path, err)
@@ -825,25 +819,67 @@ func (m *Manager) backgroundFlush() {
 	}
 }
 
-// loadSSTables loads existing SSTable files from disk
-func (m *Manager) loadSSTables() error {
-	// Get all SSTable files in the directory
+// sstableFile describes an SSTable file found in the SSTable directory
+type sstableFile struct {
+	name      string
+	level     int
+	fileNum   uint64
+	timestamp int64
+}
+
+// listSSTableFiles returns the SSTable files of the directory ordered from the
+// oldest data to the newest: deeper levels hold older data than shallower ones,
+// and within a level a later creation time means newer data. (The directory
+// order is the file name order, which puts level 1 after level 0 and, because
+// file numbers restart at every open, new level-0 files before old ones.)
+func (m *Manager) listSSTableFiles() ([]sstableFile, error) {
 	entries, err := os.ReadDir(m.sstableDir)
 	if err != nil {
 		if os.IsNotExist(err) {
-			return nil // Directory doesn't exist yet
+			return nil, nil // Directory doesn't exist yet
 		}
-		return fmt.Errorf("failed to read SSTable directory: %w", err)
+		return nil, fmt.Errorf("failed to read SSTable directory: %w", err)
 	}
 
-	// Loop through all entries
+	var files []sstableFile
 	for _, entry := range entries {
 		if entry.IsDir() || filepath.Ext(entry.Name()) != ".sst" {
 			continue // Skip directories and non-SSTable files
 		}
 
+		f := sstableFile{name: entry.Name()}
+		if n, err := fmt.Sscanf(entry.Name(), sstableFilenameFormat, &f.level, &f.fileNum, &f.timestamp); n != 3 || err != nil {
+			// Unknown naming: treat as the oldest data
+			f.level = int(^uint(0) >> 1)
+		}
+		files = append(files, f)
+	}
+
+	sort.SliceStable(files, func(i, j int) bool {
+		if files[i].level != files[j].level {
+			return files[i].level > files[j].level
+		}
+		if files[i].timestamp != files[j].timestamp {
+			return files[i].timestamp < files[j].timestamp
+		}
+		return files[i].fileNum < files[j].fileNum
+	})
+
+	return files, nil
+}
+
+// loadSSTables loads existing SSTable files from disk
+func (m *Manager) loadSSTables() error {
+	// Get all SSTable files in the directory, oldest data first
+	files, err := m.listSSTableFiles()
+	if err != nil {
+		return err
+	}
+
+	// Loop through all entries
+	for _, file := range files {
 		// Open the SSTable
-		path := filepath.Join(m.sstableDir, entry.Name())
+		path := filepath.Join(m.sstableDir, file.name)
 		reader, err := sstable.OpenReader(path)
 		if err != nil {
 			return fmt.Errorf("failed to open SSTable %s: %w", path, err)
@@ -851,6 +887,11 @@ func (m *Manager) loadSSTables() error {
 
 		// Add to the list
 		m.sstables = append(m.sstables, reader)
+
+		// Continue the level-0 file numbering after the existing files
+		if file.level == 0 && file.fileNum >= m.nextFileNum {
+			m.nextFileNum = file.fileNum + 1
+		}
 	}
 
 	return nil
